@@ -162,6 +162,13 @@ func (parser *syslogParser) Parse(input []byte, timestamp time.Time) *base.LogRe
 		remaining = next
 	}
 
+	// a record that is still longer than InputLogMaxRecordBytes once its message is cut to InputLogMaxMessageBytes has an
+	// oversized header; buffers downstream (e.g. the serializers' 2*InputLogMaxRecordBytes) are sized for records within the limit
+	if headerLength := len(input) - len(remaining); headerLength+util.MinInt(len(remaining), defs.InputLogMaxMessageBytes) > defs.InputLogMaxRecordBytes {
+		parser.onMalformed(record, fmt.Sprintf("oversized syslog header of %d bytes", headerLength), input)
+		return nil
+	}
+
 	// all the rest of message goes to the "log" message field
 	if len(remaining) > defs.InputLogMaxMessageBytes {
 		parser.onOverflow(input)
